@@ -16,6 +16,7 @@ import numpy
 from .core import Driver, VERIF, frac
 from . import c01
 from . import c03_helpers as hp
+from .c03_seq import _guarded
 
 LEVEL_TEXT = ("Proof: for every list of events (any length, duplicates, any order) and every numbers of cells and bins, entry "
               "(i,k) of the modelled space-magnitude array is the number of events with cell i and bin k, its total is the "
@@ -63,7 +64,8 @@ THEOREMS = ["Gridding.smc_ok_iff", "Gridding.smc_entry", "Gridding.smc_entry_pip
             # whole pipelines, bins over call sequences, accumulation over a forecast (Properties/C03_Seq.lean)
             "Gridding.pipeline_cart_inRange", "Gridding.pipeline_quad_inRange", "Gridding.smc_pipeline_cart",
             "Gridding.smc_pipeline_quad", "Gridding.smc_sum_mag_quad", "Gridding.occupancy_quad", "Gridding.gcall_state",
-            "Gridding.explicit_bins_win", "Gridding.calls_history_independent", "Gridding.calls_history_independent_unset",
+            "Gridding.explicit_bins_win", "Gridding.calls_history_independent", "Gridding.calls_history_independent_noregion",
+            "Gridding.mc_default_everywhere", "Gridding.finding_d41_unrepaired",
             "Gridding.default_bins_installed", "Gridding.retbins_same_counts", "Gridding.gcall_mc_entry",
             "Gridding.expected_counts_ok_iff", "Gridding.expected_counts_entry", "Gridding.expected_counts_single",
             "Gridding.expected_counts_rejects"]
@@ -94,8 +96,12 @@ RULE = ("catalogs of 0..400 events (duplicates, events on cell corners / edges a
         "for the bins that step must use, the bins bound to the region unchanged afterwards. Region states: 450 (4500) sequences "
         "with the region carrying bins / magnitudes None / no magnitudes attribute / no region at all, magnitude_counts with and "
         "without retbins, every configuration-error branch (must raise), the default CSEP_MW_BINS branch; 350 (3500) forecasts of "
-        "1-8 catalogs (some empty, some bound to another region, list or generator source) through get_expected_rates. The class "
-        "in c03_seq.AWAITING_DECISION (magnitude_counts() without bins on a region without bins / without region) is not generated.")
+        "1-8 catalogs (some empty, some bound to another region, list or generator source) through get_expected_rates. "
+        "Sessions: the region object is shared by two catalogs, the caller re-binds region.magnitudes, overwrites magnitudes in "
+        "an event array and filters catalogs in place (also to empty) between calls; tol=, retbins, to_dataframe(with_datetime) "
+        "with duplicate origin times. Sizes: 40 (300) catalogs with 130..70000 events in ONE (cell, bin) and more than 2^16 events, "
+        "native and big-endian structured arrays. get_expected_rates also with carried filters applied on its first pass and "
+        "store=False. magnitude_counts() without bins in every region state (default CSEP_MW_BINS since fix D41).")
 
 
 
@@ -292,6 +298,7 @@ def quad_cell_of(bounds):
 
 
 # ----------------------------------------------------------------------------------------------- one case
+@_guarded
 def check_case(run, drv, pending, case, region, kind, cell_of, ncell, edges, evs, mode, cart_args=None, helpers=None,
                poly_cells=None):
     mag_bins = None if mode == "bound" else (list(map(float, edges)) if mode == "list" else numpy.asarray(edges, dtype=float))
@@ -540,6 +547,7 @@ def gen_seq_case(rng, tier):
                 events=[[repr(p[0]), repr(p[1]), repr(m)] for p, m in zip(locs, mags)])
 
 
+@_guarded
 def seq_case(run, drv, pending, case):
     grids = [[float(x) for x in e] for e in case["grids"]]
     evs = [(float(a), float(b), float(c)) for a, b, c in case["events"]]
@@ -612,6 +620,7 @@ def seq_case(run, drv, pending, case):
     pending.append(("seq", case, qs, results))
 
 
+@_guarded
 def band_case(run, case):
     """Magnitudes a few ulps BELOW a bin edge lie inside the documented round-off band: either adjacent bin is allowed,
     so nothing is compared with the exact recount or the model here — but every view of the SAME catalog must make the
@@ -675,7 +684,7 @@ def run(run, rng, tier):
         c = json.load(open(path))
         if c.get("kind") == "seq":
             seq_case(run, drv, pending, c)
-        elif c.get("kind") in ("stateseq", "expected"):
+        elif c.get("kind") in ("stateseq", "expected", "big"):
             from . import c03_seq
             c03_seq.replay(run, c, Driver)
         elif c.get("kind") in hp.KINDS:
@@ -720,7 +729,7 @@ def replay(run, payload):
     if payload["case"].get("kind") in hp.KINDS:
         hp.replay(run, payload["case"])
         return
-    if payload["case"].get("kind") in ("stateseq", "expected"):
+    if payload["case"].get("kind") in ("stateseq", "expected", "big"):
         from . import c03_seq
         c03_seq.replay(run, payload["case"], Driver)
         return
